@@ -424,6 +424,15 @@ M_DEEP = dict(name="M-deep-chain", world="noseg-2d", seed="chain", items=[
     ("set_attr", 1, "score", 2.5),       # C: any accepted edit
     UNDO, REDO,
 ])
+# refused calls interleaved with accepted ones: a refused call must not become a step of the
+# timeline, nor flush the pending redo steps
+M_REFUSED = dict(name="M-refused-chain", world="noseg-2d", seed="chain", items=[
+    ("set_attr", 1, "score", 2.5),       # accepted
+    ("del_node", 3),                     # accepted once
+    ("set_attr", 1, "time", 3),          # always refused (protected attribute)
+    ("add_edge", 3, 1, False),           # always refused (not forward in time)
+    UNDO, REDO,
+])
 M3 = dict(name="M3-full-chain", world="noseg-2d", seed="chain", full_alphabet=True,
           kinds=("del_node", "del_edge", "add_edge", "add_node", "swap"))
 M3S = dict(name="M3-full-seg-chain", world="seg-2d-core", seed="chain", full_alphabet=True,
@@ -433,7 +442,7 @@ M3S = dict(name="M3-full-seg-chain", world="seg-2d-core", seed="chain", full_alp
 def check_c02(tier):
     q = tier == "quick"
     menus = [(M1, 5 if q else 7), (M1B, 5 if q else 6), (M2, 4 if q else 6), (M3, 2 if q else 3), (M3S, 2),
-             (M_DEEP, 7 if q else 9)]
+             (M_DEEP, 7 if q else 9), (M_REFUSED, 6 if q else 8)]
     return run_e2("C02", tier, "C02", menus, time_budget=budget(tier, 400, 3000),
                   inv_props=("C03", "C04", "C05", "C06"))
 
